@@ -135,7 +135,7 @@ BUILTIN_TYPES = ['object', 'type', 'int', 'str', 'bytes', 'bool', 'float', 'tupl
                  'OrderedDict', 'ChainMap']
 BUILTIN_FUNCS = ['len', 'isinstance', 'issubclass', 'type', 'callable', 'getattr', 'setattr', 'delattr', 'hasattr', 'id', 'sorted',
                  'zip', 'enumerate', 'reversed', 'range', 'sum', 'max', 'min', 'iter', 'next', 'repr', 'hash', 'print', 'any', 'all',
-                 'map', 'filter', 'open', 'super', 'bbrepr', 'bbformat', 'format_invocation', 'same', 'subseq', 'old', 'assume']
+                 'map', 'filter', 'open', 'super', 'bbrepr', 'bbformat', 'format_invocation', 'same', 'subseq', 'old', 'assume', 'as_dict', 'as_list']
 
 
 class Config:
@@ -160,6 +160,7 @@ class Config:
         self.scope_key_types = {}  # scope key constant name -> type tag of the bound value
         self.unroll_while = {}     # (function, ordinal) -> bound, for while loops over statically bounded data
         self.clause_module = None  # module in which contract clause expressions are resolved
+        self.optional_attrs = set()  # instance attributes that may be absent (a plain read forks: present / AttributeError)
 
 
 _SHARED = {}
